@@ -157,3 +157,100 @@ Lemma trR_race : ~ hb trR 5 6.
 Proof.
   intros H. apply hb_trR in H. destruct H as [_ [H|[[H _]|[H _]]]]; try discriminate H.
 Qed.
+
+(* ---- go statement and WaitGroup edges: the shape of pkg/group's executeEach ----
+   thread 1 starts the member goroutine G (thread 2) and the closer goroutine H (thread 3); G sends its
+   result and calls all.Done(); H returns from all.Wait() and closes the result channel. *)
+Definition wg_send : site :=
+  mkSite "responses.chan" KR [] [BPO (wg_chan "all" "G")] [go_chan "G"] false "exec.go:executeEach" "exec.go:188".
+Definition wg_close : site :=
+  mkSite "responses.chan" KW [] [BPO "end:H"] [go_chan "H"; wg_chan "all" "G"] false "exec.go:executeEach" "exec.go:194".
+Definition tbW : table := mkTable [wg_send; wg_close]
+  [mkCloser (go_chan "G") [] "exec.go:executeEach" "exec.go:185";
+   mkCloser (go_chan "H") [] "exec.go:executeEach" "exec.go:192";
+   mkCloser (wg_chan "all" "G") [] "exec.go:executeEach" "exec.go:186";
+   mkCloser "end:H" [] "exec.go:executeEach" "exec.go:195"].
+
+Definition trW : list (tid * act) :=
+  [(1, Close pub); (1, Go "G"); (1, Go "H");
+   (2, RecvC pub); (2, Start "G"); (2, Acc wg_send); (2, WgDone "all" "G");
+   (3, RecvC pub); (3, Start "H"); (3, WgWait "all" "G"); (3, Acc wg_close); (3, Close "end:H")]%Z.
+
+Lemma check_tbW : check tbW = true.
+Proof. vm_compute. reflexivity. Qed.
+
+Lemma why_tbW : why tbW wg_send wg_close = Some (RWaitGroup (wg_chan "all" "G")).
+Proof. vm_compute. reflexivity. Qed.
+
+Ltac in_list := simpl; repeat (first [left; reflexivity | right]).
+
+Ltac peel E p :=
+  destruct p as [|? p]; simpl in E;
+  [inversion E; subst; clear E | inversion E as [[E0 E']]; clear E; rename E' into E; clear E0].
+
+Ltac skipe E p :=
+  destruct p as [|? p]; simpl in E;
+  [solve [inversion E] | inversion E as [[E0 E']]; clear E; rename E' into E; clear E0].
+
+Lemma wf_trW : wf trW.
+Proof.
+  intros p e q E. unfold trW, Go, Start, WgDone, WgWait in E.
+  peel E p; [exact I|]. peel E p; [exact I|]. peel E p; [exact I|].
+  peel E p; [eexists; in_list|]. peel E p; [eexists; in_list|]. peel E p; [exact I|]. peel E p; [exact I|].
+  peel E p; [eexists; in_list|]. peel E p; [eexists; in_list|]. peel E p; [eexists; in_list|]. peel E p; [exact I|]. peel E p; [exact I|].
+  destruct p; discriminate E.
+Qed.
+
+Lemma conform_trW : conform tbW trW.
+Proof.
+  split.
+  - intros p t s q E. unfold trW, Go, Start, WgDone, WgWait in E.
+    do 5 (skipe E p).
+    peel E p.
+    { split; [left; reflexivity|]. split; [intros l m []|]. split.
+      - intros c [H|[H|[]]]; subst; in_list.
+      - intros b [H|[]]; subst. cbn [before_ok]. split.
+        + exists [(1, Close pub); (1, Go "G"); (1, Go "H"); (2, RecvC pub); (2, Start "G"); (2, Acc wg_send)]%Z, 
+                 [(3, RecvC pub); (3, Start "H"); (3, WgWait "all" "G"); (3, Acc wg_close); (3, Close "end:H")]%Z. reflexivity.
+        + intros p' u q' E. unfold Go, Start, WgDone, WgWait in E.
+          do 6 (destruct p' as [|? p']; simpl in E; [discriminate E|inversion E as [[E0 E']]; clear E; rename E' into E; clear E0]).
+          destruct p' as [|? p']; simpl in E.
+          { inversion E; subst. split; [reflexivity|simpl; lia]. }
+          inversion E as [[E0 E']]; clear E; rename E' into E; clear E0.
+          do 5 (destruct p' as [|? p']; simpl in E; [discriminate E|inversion E as [[E0 E']]; clear E; rename E' into E; clear E0]).
+          destruct p'; discriminate E. }
+    do 4 (skipe E p).
+    peel E p.
+    { split; [right; left; reflexivity|]. split; [intros l m []|]. split.
+      - intros c [H|[H|[H|[]]]]; subst; in_list.
+      - intros b [H|[]]; subst. cbn [before_ok]. split.
+        + exists [(1, Close pub); (1, Go "G"); (1, Go "H"); (2, RecvC pub); (2, Start "G"); (2, Acc wg_send); (2, WgDone "all" "G");
+                  (3, RecvC pub); (3, Start "H"); (3, WgWait "all" "G"); (3, Acc wg_close)]%Z, []. reflexivity.
+        + intros p' u q' E. unfold Go, Start, WgDone, WgWait in E.
+          do 11 (destruct p' as [|? p']; simpl in E; [discriminate E|inversion E as [[E0 E']]; clear E; rename E' into E; clear E0]).
+          destruct p' as [|? p']; simpl in E.
+          { inversion E; subst. split; [reflexivity|simpl; lia]. }
+          inversion E as [[E0 E']]; clear E; rename E' into E; clear E0.
+          destruct p'; discriminate E. }
+    skipe E p.
+    destruct p; discriminate E.
+  - intros p u c q E NP. unfold trW, Go, Start, WgDone, WgWait in E.
+    peel E p; [congruence|].
+    peel E p; [eexists; split; [left; reflexivity|split; [reflexivity|intros l m []]]|].
+    peel E p; [eexists; split; [right; left; reflexivity|split; [reflexivity|intros l m []]]|].
+    do 3 (skipe E p).
+    peel E p; [eexists; split; [right; right; left; reflexivity|split; [reflexivity|intros l m []]]|].
+    do 4 (skipe E p).
+    peel E p; [eexists; split; [right; right; right; left; reflexivity|split; [reflexivity|intros l m []]]|].
+    destruct p; discriminate E.
+Qed.
+
+(* send (5) -po-> Done (6) -sw-> return of Wait (9) -po-> close (10) *)
+Lemma trW_ordered : hb trW 5 10.
+Proof.
+  apply hb_trans with (j := 6%nat).
+  { apply (hb_po trW 5 6 2%Z (Acc wg_send) (WgDone "all" "G")); [lia|reflexivity|reflexivity]. }
+  apply hb_trans with (j := 9%nat).
+  { apply (hb_sw trW 6 9 2%Z (WgDone "all" "G") 3%Z (WgWait "all" "G")); [lia|reflexivity|reflexivity|reflexivity]. }
+  apply (hb_po trW 9 10 3%Z (WgWait "all" "G") (Acc wg_close)); [lia|reflexivity|reflexivity].
+Qed.
